@@ -1750,7 +1750,7 @@ import os
 class C13(Prop):
     name = 'C13'; module = 'C13'; claimed = True
     title = 'parsers are pure values'
-    bins = ['h_hist', 'h_str_rich', 'h_slice_rich']
+    bins = ['h_hist', 'h_str_rich', 'h_slice_rich', 'h_text']
     rule = ('grammars of the C01/C02/recovery/memoization/recursion streams, each with a pool of inputs (accepted and rejected ones); '
             'histories: every sequence of length <= 3 over the first three pool inputs plus seeded random histories of length 6, each '
             'history through one of nine wrappers over the SAME parser object (value, clone, &, Box, Rc, Arc, boxed().boxed(), Either '
@@ -1848,11 +1848,57 @@ class C13(Prop):
             out.append(case_line(f'k{n}~c', g, inp, kind=kind, mode=mode, **kw))
         return out
 
+    def regex_lines(self, tier):
+        ralpha = [97, 98, 48, 55, 32, 95, 233, 10]
+        return [f'T r{pi}{inst[0]} {inst} regex_hist 1 {pi} I {inputs_all(4 if tier == "quick" else 5, ralpha)}'
+                for pi in range(len(REGEX_PATTERNS)) for inst in ('char', 'u8')]
+
+    def regex_histories(self, rlines, tot, fails, jobs):
+        """one `regex` parser value over windows of one buffer (all prefixes of each text, growing then shrinking): a failing
+        search followed by a succeeding one at the same address and vice versa; every step must give what the oracle (Python's
+        `re`, as in C14) gives for that prefix alone"""
+        import multiprocessing, subprocess, vcheck as vc
+        if not rlines:
+            return
+        with multiprocessing.Pool(jobs) as pool:
+            results = pool.map(_text_impl_worker, rlines)
+        for line, (rc, out) in zip(rlines, results):
+            if rc != 0:
+                tot['crash'] = f'h_text rc={rc}'
+            t = line.split()
+            cid, inst = t[1], t[2]
+            pi = int(t[5])
+            inputs = expand_inputs(t[7:])
+            d = dict(l.split(' M ', 1) for l in out.split('\n') if ' M ' in l)
+            for k, toks in enumerate(inputs):
+                got = d.get(f'{cid}.{k}')
+                if got is None:
+                    fails.append(('missing', line, k, f'no implementation observation for the regex history on {toks}'))
+                    continue
+                if inst == 'u8' and any(c >= 128 for c in toks):
+                    continue          # the oracle works on text; bytes >= 128 are not text
+                ends = list(range(len(toks) + 1))
+                steps = [x.partition(' i')[0] for x in got.split(' | ')]
+                want = []
+                for e in ends + ends[::-1]:
+                    o = regex_oracle(pi, toks[:e])
+                    want.append('none' if o is None else 'ok %d %d %d' % o)
+                tot['pairs'] += len(want)
+                tot['nontrivial'] += len(want) - 1
+                tot['outcomes']['regex-history'] = tot['outcomes'].get('regex-history', 0) + len(want)
+                if steps != want:
+                    j = next(i for i in range(max(len(steps), len(want))) if i >= len(steps) or i >= len(want) or steps[i] != want[i])
+                    tot['pred_fail'] += 1
+                    self.fail(tot, fails, 'pred', line, k,
+                              f'REGEX-HISTORY regex({REGEX_PATTERNS[pi]!r}) [{inst}] one value over the prefixes of {"".join(chr(c) for c in toks)!r} '
+                              f'(growing, then shrinking): step {j} gives {steps[j] if j < len(steps) else None}, a fresh parser gives {want[j] if j < len(want) else None}')
+
     def custom_run(self, lines, tier, seed, jobs):
         import multiprocessing, vcheck
         replaying = len(lines) < 10          # a replay / a shrinking step: only the lines given
         given = [l for l in lines if l.split(' ', 1)[0].startswith('k')]
-        lines = [l for l in lines if not l.split(' ', 1)[0].startswith('k')]
+        rlines = [l for l in lines if l.startswith('T ')]
+        lines = [l for l in lines if not l.split(' ', 1)[0].startswith('k') and not l.startswith('T ')]
         ctot, cfails = vcheck.run_cases(self.name, given if replaying else self.clone_lines(tier, seed), jobs=jobs, timeout=900)
         n = max(1, min(jobs, len(lines)))
         chunks = [lines[i::n] for i in range(n)]
@@ -1885,6 +1931,7 @@ class C13(Prop):
                     fails.append(('pred', by_id.get(cid), 0, f'{cid}: result differs from a fresh parser: {rest}'))
                 elif len(tot['samples']) < 3:
                     tot['samples'].append({'case': cid, 'grammar': grammar_of(by_id[cid]) if cid in by_id else 'static threaded parser', 'observation': rest.strip()})
+        self.regex_histories(rlines if replaying else self.regex_lines(tier), tot, fails, jobs)
         for k in ('pairs', 'corr_disagree', 'pred_fail', 'nontrivial'):
             tot[k] += ctot[k]
         tot['impl_s'] += ctot['impl_s']; tot['model_s'] += ctot['model_s']
@@ -2020,6 +2067,12 @@ def _text_worker(args):
     pi = subprocess.run([os.path.join(vc.HBIN_DIR, 'h_text')], input=text, stdout=subprocess.PIPE, stderr=subprocess.PIPE, text=True, timeout=1800)
     pm = subprocess.run([vc.DRIVER], input=text, stdout=subprocess.PIPE, stderr=subprocess.PIPE, text=True, timeout=1800)
     return pi.returncode, pi.stdout, pm.returncode, pm.stdout
+
+
+def _text_impl_worker(line):
+    import subprocess, vcheck as vc
+    pi = subprocess.run([os.path.join(vc.HBIN_DIR, 'h_text')], input=line + '\n', stdout=subprocess.PIPE, stderr=subprocess.PIPE, text=True, timeout=1800)
+    return pi.returncode, pi.stdout
 
 
 class C14(Prop):
